@@ -4,6 +4,7 @@
 import sys, os, shutil, json
 id_, n, name, meta = sys.argv[1], sys.argv[2], sys.argv[3], json.loads(sys.argv[4])
 src = f"/tmp/wt-{id_}/MUTANTS/{n}"
+prop = meta.get("property", id_)
 dst = f"/verif/seeded/{name}"
 if os.path.exists(dst):
     shutil.rmtree(dst)
@@ -18,7 +19,7 @@ for w in ("with", "without"):
     c = f"/tmp/confirm-{id_}-{n}.{w}"
     if os.path.exists(c):
         shutil.copy(c, os.path.join(dst, f"confirmed_demo_output.{w}_patch.txt"))
-meta.setdefault("property", id_)
+meta["property"] = prop
 meta["source"] = "independent sub-agent given only the property text and a scratch worktree"
 meta["confirmed_by_me"] = "applied in the scratch worktree: compiles; `cargo test --workspace --no-fail-fast --offline` 221 passed 0 failed; the demonstration's output differs with and without the patch (confirmed_demo_output.*.txt)"
 json.dump(meta, open(os.path.join(dst, "meta.json"), "w"), indent=1, ensure_ascii=False)
